@@ -3356,7 +3356,12 @@ class UTPM(Ring, RawAlgorithmsMixIn):
             for p in range(P):
 
                 # abar.data[d,p, ...] += numpy.fft.fft(bbar.data[d,p], n=n, axis=axis)
-                numpy.add(abar.data[d,p, ...], numpy.fft.fft(bbar.data[d,p], n=n, axis=axis), out=abar.data[d,p, ...], casting="unsafe")
+                # (with n != N the transform pads with zeros / drops the tail: only the first min(n, N) entries have an adjoint)
+                tmp = numpy.fft.fft(bbar.data[d,p], n=n, axis=axis)
+                sl = [slice(None)]*tmp.ndim
+                sl[axis] = slice(0, min(tmp.shape[axis], abar.data.shape[2:][axis]))
+                sl = tuple(sl)
+                numpy.add(abar.data[d,p][sl], tmp[sl], out=abar.data[d,p][sl], casting="unsafe")
 
         return abar
 
@@ -3393,7 +3398,12 @@ class UTPM(Ring, RawAlgorithmsMixIn):
 
         for d in range(D):
             for p in range(P):
-                numpy.add(abar.data[d,p, ...], numpy.fft.ifft(bbar.data[d,p], n=n, axis=axis), out=abar.data[d,p, ...], casting="unsafe")
+                # (with n != N the transform pads with zeros / drops the tail: only the first min(n, N) entries have an adjoint)
+                tmp = numpy.fft.ifft(bbar.data[d,p], n=n, axis=axis)
+                sl = [slice(None)]*tmp.ndim
+                sl[axis] = slice(0, min(tmp.shape[axis], abar.data.shape[2:][axis]))
+                sl = tuple(sl)
+                numpy.add(abar.data[d,p][sl], tmp[sl], out=abar.data[d,p][sl], casting="unsafe")
 
         return abar
 
